@@ -29,6 +29,8 @@ type instrReport struct {
 	ChanWrapped []string          `json:"chan_wrapped"`
 	Gosched     []string          `json:"gosched"`
 	Knob        map[string]string `json:"knob"`
+	CLI         []string          `json:"cli_redirected"`
+	CLIMain     bool              `json:"cli_main"`
 }
 
 type build struct {
@@ -41,6 +43,16 @@ type build struct {
 	repo    string
 	head    string
 	diff    string
+
+	cliSkipped string // non-empty: why scenario C (the real cmd/php-parser) is not simulated
+}
+
+func firstLines(s string, n int) string {
+	l := strings.Split(strings.TrimSpace(s), "\n")
+	if len(l) > n {
+		l = l[:n]
+	}
+	return strings.Join(l, " | ")
 }
 
 func goEnv() []string {
@@ -121,6 +133,11 @@ func buildSimnode(tag string) (*build, error) {
 	if err := copyGlob(filepath.Join(vd, "sim/zzsimsync/*.go"), filepath.Join(b.src, "pkg/zzsimsync")); err != nil {
 		return b, err
 	}
+	for _, shim := range []string{"zzsimflag", "zzsimos"} {
+		if err := copyGlob(filepath.Join(vd, "sim", shim, "*.go"), filepath.Join(b.src, "pkg", shim)); err != nil {
+			return b, err
+		}
+	}
 	if err := copyGlob(filepath.Join(vd, "harness/*.go"), filepath.Join(h, "harness")); err != nil {
 		return b, err
 	}
@@ -151,11 +168,27 @@ func buildSimnode(tag string) (*build, error) {
 	if sum, err := os.ReadFile(filepath.Join(repo, "go.sum")); err == nil {
 		os.WriteFile(filepath.Join(h, "go.sum"), sum, 0644)
 	}
-	if out, err := run(h, goEnv(), "go", "build", "-race", "-o", b.simnode, "./harness"); err != nil {
+	// with the real cmd/php-parser linked in (scenario C) if its instrumented
+	// copy builds; otherwise without it, and scenario C is reported as skipped
+	tags := "zzcli"
+	if !b.instr.CLIMain {
+		tags, b.cliSkipped = "", "cmd/php-parser has no func main"
+	}
+	for _, c := range b.instr.ChanOps {
+		if strings.HasPrefix(c, "cmd/") && tags != "" {
+			tags, b.cliSkipped = "", "cmd/php-parser uses a channel construct the simulator cannot own: "+c
+		}
+	}
+	out, err := run(h, goEnv(), "go", "build", "-race", "-tags", tags, "-o", b.simnode, "./harness")
+	if err != nil && tags != "" {
+		tags, b.cliSkipped = "", "the instrumented cmd/php-parser does not build: "+firstLines(out, 6)
+		out, err = run(h, goEnv(), "go", "build", "-race", "-tags", tags, "-o", b.simnode, "./harness")
+	}
+	if err != nil {
 		return b, fmt.Errorf("go build -race of the instrumented tree failed: %v\n%s", err, out)
 	}
 	b.simref = filepath.Join(scratch, "simref")
-	if out, err := run(h, goEnv(), "go", "build", "-o", b.simref, "./harness"); err != nil {
+	if out, err := run(h, goEnv(), "go", "build", "-tags", tags, "-o", b.simref, "./harness"); err != nil {
 		return b, fmt.Errorf("go build of the instrumented tree (plain) failed: %v\n%s", err, out)
 	}
 	if out, err := run(repo, nil, "git", "rev-parse", "HEAD"); err == nil {
